@@ -15,7 +15,11 @@ ALPHABET = [
     "text", "text_frag", "cont_fin", "ping", "pong", "close_1000", "close_empty",
     "rsv_frame", "bad_utf8", "half_frame", "short_silence", "long_silence", "eof", "reset",
     "silence",      # the server stays connected and says nothing more, ever (no EOF): only a timer can end this
+    # the transport fails for good and every later read reports the same error: a fatal TLS alert / bad
+    # record (such histories run over wss://) and a routing failure (EHOSTUNREACH)
+    "tls_error", "io_error",
 ]
+ENDERS = ("eof", "reset", "silence", "tls_error", "io_error")
 FIRST_ONLY = ["refused"]
 
 POLICIES = ["passive", "close@connected", "close@ready", "close@message", "close@poll",
@@ -70,6 +74,8 @@ def step_to_script(name):
         return [["eof", 0.0]]
     if name == "reset":
         return [["reset", 0.0]]
+    if name in ("tls_error", "io_error", "tls_eof"):
+        return [["reset", 0.0, name]]
     if name == "silence":
         return []
     raise ValueError(name)
@@ -182,8 +188,9 @@ def monitor(tr, silent_end=False, copts=None):
 class C07(Prop):
     id = "C07"
     level = "exploration"
-    rule = ("bounded exhaustive: every sequence of `depth` server steps over a 19-symbol alphabet (handshake variants, "
-            "data/control/invalid frames, close, half frame, silences, EOF, reset; connection refused as first step) x 9 "
+    rule = ("bounded exhaustive: every sequence of `depth` server steps over a 22-symbol alphabet (handshake variants, "
+            "data/control/invalid frames, close, half frame, silences, EOF, reset, a fatal TLS error or routing failure that every "
+            "later read repeats (wss://); connection refused as first step) x 9 "
             "application policies x 2 option sets, each ending in EOF; depth 3 in quick, 4 in thorough. Hypothesis: scripts of up "
             "to 40 steps with per-event reaction plans and random timer settings. Oracle: a monitor for the event grammar "
             "(Connecting first; ConnectFail-and-stop or Connected; Ready once, after Connected; message/Poll/Closing/Closed only "
@@ -201,14 +208,14 @@ class C07(Prop):
                     for pi in range(len(POLICIES)):
                         yield {"steps": ["refused"], "policy": pi, "opts": oi}
                 continue
-            if first in ("eof", "reset", "silence"):
+            if first in ENDERS:
                 tails = [()]
             else:
                 tails = itertools.product(ALPHABET, repeat=depth - 1)
             for tail in tails:
                 steps = [first] + list(tail)
                 # nothing can follow EOF/reset: keep only canonical representatives
-                cut = next((i for i, s in enumerate(steps) if s in ("eof", "reset", "silence")), None)
+                cut = next((i for i, s in enumerate(steps) if s in ENDERS), None)
                 if cut is not None and cut != len(steps) - 1:
                     continue
                 for oi in range(len(OPTION_SETS)):
@@ -255,7 +262,9 @@ class C07(Prop):
                                  "reply_17k", "text", "eof", "half_frame", "long_silence"])
         rest = st.lists(st.sampled_from(ALPHABET[5:17] + ["text", "ping", "short_silence"]), max_size=39)
         return st.fixed_dictionaries({
-            "first": first, "rest": rest, "end": st.sampled_from(["eof", "eof", "reset", "silence"]),
+            "first": first, "rest": rest,
+            "end": st.sampled_from(["eof", "eof", "reset", "silence", "tls_error", "tls_eof", "io_error"]),
+            "tls": gen.weighted([(3, st.just(False)), (1, st.just(True))]),
             "reactions": st.lists(rule, max_size=4), "copts": opts,
             "addrs": st.lists(st.sampled_from(["ok", "refused", "timeout", "sockerr"]), min_size=1, max_size=3),
             # "every fault": one non-fatal write fault (the k-th sendall times out / raises)
@@ -286,7 +295,7 @@ class C07(Prop):
         else:
             for s in steps:
                 script.extend(step_to_script(s))
-            if steps[-1] not in ("eof", "reset", "silence"):
+            if steps[-1] not in ENDERS + ("tls_eof",):
                 script.append(["eof", 0.0])
             if addrs:
                 att["addrs"] = addrs
@@ -294,11 +303,15 @@ class C07(Prop):
                 att["faults"] = {"send": {str(case["send_fault"][0]): case["send_fault"][1]}}
                 labels.add("send_fault")
         silent_end = steps[-1] == "silence"
+        tls = bool(case.get("tls")) or steps[-1].startswith("tls_")
+        if tls:
+            labels.add("wss")
         scn = build.scenario(script, connect_opts=copts, reactions=reactions, attempt_extra=att,
-                             horizon=600.0 if silent_end else None)
+                             horizon=600.0 if silent_end else None, **({"url": "wss://example.test/"} if tls else {}))
         tr = simnet.run_scenario(scn)
         names = tr.names()
-        faulty = bool(set(steps) & {"rsv_frame", "bad_utf8", "half_frame", "reset", "reply_17k"})
+        faulty = bool(set(steps) & {"rsv_frame", "bad_utf8", "half_frame", "reset", "reply_17k", "tls_error", "tls_eof",
+                                    "io_error"})
         acted = bool(tr.actions)
         nontrivial = "ready" in names and (faulty or acted)
         for n in set(names):
